@@ -99,9 +99,31 @@ def S(b: bytes) -> bytes:
     return struct.pack('>I', len(b)) + b
 
 
+_MARKER: List[Any] = []
+
+
+def marker_keys_for(u: int) -> Any:
+    """an authorized-keys object standing for "user u's keys are installed" (its one entry is a key no client holds,
+    so the decision stays with the application callback, which looks at WHICH object the connection holds)"""
+    if not _MARKER:
+        _MARKER.append(asyncssh.generate_private_key('ssh-ed25519'))
+    return asyncssh.import_authorized_keys(_MARKER[0].export_public_key('openssh').decode().strip() + ' user%d\n' % u)
+
+
 class AuthServer(asyncssh.SSHServer):
     def __init__(self, app: Dict[str, Any], rec: Dict[str, Any]):
         self.app, self.rec = app, rec
+        # per-user authorized keys, installed the documented way (conn.set_authorized_keys in begin_auth, nothing
+        # for a user without keys - examples/simple_keyed_server.py)
+        self.userkeys = {u: marker_keys_for(u) for u in sorted({u for u, _k in app.get('key', [])})}
+
+    def _install(self, u: int) -> None:
+        if self.app.get('peruser') and u in self.userkeys:
+            self.rec['conn'].set_authorized_keys(self.userkeys[u])
+
+    def _installed_user(self) -> Optional[int]:
+        inst = getattr(self.rec['conn'], '_authorized_client_keys', None)
+        return next((u for u, obj in self.userkeys.items() if obj is inst), None)
 
     def connection_made(self, conn: Any) -> None:
         self.rec['conn'] = conn
@@ -119,10 +141,10 @@ class AuthServer(asyncssh.SSHServer):
 
             async def wait() -> bool:
                 r = await fut
-                self.rec['installed'] = u       # per-user authorized keys are installed when begin_auth completes
+                self._install(u)                # per-user authorized keys are installed when begin_auth completes
                 return r
             return wait()
-        self.rec['installed'] = u
+        self._install(u)
         return res
 
     def password_auth_supported(self) -> bool:
@@ -200,8 +222,9 @@ class AuthServer(asyncssh.SSHServer):
     def validate_public_key(self, username: str, key: Any) -> Any:
         u = int(username[4:])
         k = next((i for i, kk in enumerate(keys()) if kk.public_data == key.public_data), -1)
-        ctx = self.rec.get('installed', u) if self.app.get('peruser') else u
-        ok = (ctx, k) in self.app['key']
+        # per-user mode: the keys that count are those of the user whose key set the connection really holds
+        ctx = self._installed_user() if self.app.get('peruser') else u
+        ok = ctx is not None and (ctx, k) in self.app['key']
         self.rec['calls'].append(('validate_public_key', u, k))
         fut = asyncio.get_event_loop().create_future()
         self.rec['vals'].append((fut, ok, ('key', u, k)))
@@ -518,6 +541,11 @@ CORPUS = [
      ['req:3:password:0', 'val:0', 'authmsg', 'req:3:pwchange:2', 'val:1', 'req:3:pwchange:1', 'val:2']),
     ({'async': False, 'noauth': [], 'pw': [], 'key': [], 'kbd0': [(1, 2)], 'kbd1': [(1, 0, 0), (1, 1, 1)]},
      ['req:1:kbdint:0', 'val:0', 'info:0', 'info:1', 'val:1', 'req:2:none:0', 'val:2']),       # superseded response must be dead
+    # per-user keys must not survive a switch to a user who has none (reload_config resets them)
+    ({'async': True, 'peruser': True, 'noauth': [], 'pw': [], 'key': [(1, 1)]},
+     ['req:1:pkprobe:1', 'begin:0', 'val:0', 'req:2:pksig1:1', 'begin:1', 'val:1']),
+    ({'async': False, 'peruser': True, 'noauth': [], 'pw': [], 'key': [(1, 1)]},
+     ['req:1:none:0', 'req:2:pksig1:1', 'val:0']),
     ({'async': False, 'noauth': [], 'pw': [], 'key': []}, ['info:0']),
     ({'async': False, 'noauth': [], 'pw': [(1, 1)], 'key': []}, ['req:1:password:1', 'val:0', 'info:0']),
 ]
